@@ -49,6 +49,13 @@ func checkC11(c *Ctx) {
 	}
 	c.c11NoCopy()
 	c.c11WhoDeletes()
+	// a cycle can only remove what it can lock: no operation of the backend (Walk and Dump with a failing callback included)
+	// leaves a shard lock held, or the next deleteExpired blocks for ever (C08 R08.5)
+	c.borrowKinds("C08", func() {
+		for _, b := range backends {
+			c.c08Backend(b)
+		}
+	}, "R11.7", "backends:no-shard-lock-left-held", []string{"R08.5"}, "lock-leak", "relock", "callback-under-shard-lock")
 	c.borrow("C07", func() {
 		for _, b := range backends {
 			c.c07Batch(b)
